@@ -118,6 +118,7 @@ type vHistory struct {
 	ReschedUs   int            `json:"resched_us"`
 	FinalUnload bool           `json:"final_unload"`
 	NReq        int            `json:"nreq"`
+	Spread      bool           `json:"sched_spread,omitempty"` // OLLAMA_SCHED_SPREAD=1: placement goes through the all-GPUs path
 }
 
 var vDelayPoints = []string{
@@ -402,7 +403,11 @@ func newVWorld(t testing.TB, h *vHistory) *vWorld {
 	}
 	os.Setenv("OLLAMA_MAX_QUEUE", strconv.Itoa(h.MaxQueue))
 	os.Setenv("OLLAMA_KEEP_ALIVE", "3ms")
-	os.Unsetenv("OLLAMA_SCHED_SPREAD")
+	if h.Spread {
+		os.Setenv("OLLAMA_SCHED_SPREAD", "1")
+	} else {
+		os.Unsetenv("OLLAMA_SCHED_SPREAD")
+	}
 	os.Unsetenv("OLLAMA_GPU_OVERHEAD")
 
 	w := &vWorld{h: h, log: &vLog{}, reqs: map[int]*vReqState{}, gate: make(chan struct{})}
